@@ -15,10 +15,6 @@ from .tree_common import check_from_list_rows, check_sep
 
 
 def check(ck: Checker) -> None:
-    from . import round4 as _r4
-
-    _r4.tree_load_rejects_only_nonlist(ck, "C02.load")
-    _r4.failures_always_raised(ck, "C02.checkout.pair")
     ck.decided = [
         "C02.sep: Tree.as_list / from_list use the same path field and '/' separator (unbounded split)",
         "C02.zipalign: in _build_files every zip() pairs file names with paths that take order and length from the same listing",
@@ -42,6 +38,11 @@ def check(ck: Checker) -> None:
     _children(ck, rule="C02.children")
     _load(ck)
     check_from_list_rows(ck, "C02.load")
+    from . import round4 as _r4
+
+    _r4.tree_load_rejects_only_nonlist(ck, "C02.load")
+    _r4.failures_always_raised(ck, "C02.checkout.pair")
+
 
 
 def _walk(ck: Checker) -> None:
